@@ -53,7 +53,8 @@ type FieldLayout struct {
 	Type   types.Type
 }
 
-// PackedLayout returns the packed layout of a struct type.
+// PackedLayout returns the packed layout of a struct type. Fields that are themselves structs are flattened into
+// their leaf fields (named "Outer.Inner"): encoding/binary writes them in place.
 func PackedLayout(t types.Type) []FieldLayout {
 	st, ok := t.Underlying().(*types.Struct)
 	if !ok {
@@ -61,21 +62,34 @@ func PackedLayout(t types.Type) []FieldLayout {
 	}
 	var out []FieldLayout
 	off := 0
-	for i := 0; i < st.NumFields(); i++ {
-		f := st.Field(i)
-		s := PackedSize(f.Type())
-		if s < 0 {
-			return nil
+	var walk func(st *types.Struct, prefix string) bool
+	walk = func(st *types.Struct, prefix string) bool {
+		for i := 0; i < st.NumFields(); i++ {
+			f := st.Field(i)
+			if inner, isStruct := f.Type().Underlying().(*types.Struct); isStruct {
+				if !walk(inner, prefix+f.Name()+".") {
+					return false
+				}
+				continue
+			}
+			s := PackedSize(f.Type())
+			if s < 0 {
+				return false
+			}
+			out = append(out, FieldLayout{prefix + f.Name(), off, s, f.Type()})
+			off += s
 		}
-		out = append(out, FieldLayout{f.Name(), off, s, f.Type()})
-		off += s
+		return true
+	}
+	if !walk(st, "") {
+		return nil
 	}
 	return out
 }
 
 // ByteTemplate folds a struct composite literal into bytes: constant fields
 // become their big-endian bytes, other fields holes (-1). Fields not mentioned
-// in the literal are zero.
+// in the literal are zero; a field that is a nested struct literal is folded in place.
 func (f *Fn) ByteTemplate(lit *ast.CompositeLit) ([]int, []FieldLayout) {
 	t := f.Info().TypeOf(lit)
 	if t == nil {
@@ -91,19 +105,47 @@ func (f *Fn) ByteTemplate(lit *ast.CompositeLit) ([]int, []FieldLayout) {
 	}
 	buf := make([]int, total)
 	vals := map[string]ast.Expr{}
-	for _, e := range lit.Elts {
-		if kv, ok := e.(*ast.KeyValueExpr); ok {
-			if id, ok := kv.Key.(*ast.Ident); ok {
-				vals[id.Name] = kv.Value
+	unknown := map[string]bool{} // prefixes whose value is not a literal: holes
+	var collect func(cl *ast.CompositeLit, prefix string)
+	collect = func(cl *ast.CompositeLit, prefix string) {
+		for _, e := range cl.Elts {
+			kv, ok := e.(*ast.KeyValueExpr)
+			if !ok {
+				continue
 			}
+			id, ok := kv.Key.(*ast.Ident)
+			if !ok {
+				continue
+			}
+			if tv, has := f.Info().Types[kv.Value]; has && tv.Type != nil {
+				if _, isStruct := tv.Type.Underlying().(*types.Struct); isStruct {
+					if inner, isLit := ast.Unparen(kv.Value).(*ast.CompositeLit); isLit {
+						collect(inner, prefix+id.Name+".")
+					} else {
+						unknown[prefix+id.Name+"."] = true
+					}
+					continue
+				}
+			}
+			vals[prefix+id.Name] = kv.Value
 		}
 	}
+	collect(lit, "")
 	for _, l := range lay {
+		hole := false
+		for pre := range unknown {
+			if len(l.Name) > len(pre) && l.Name[:len(pre)] == pre {
+				hole = true
+			}
+		}
 		v, ok := vals[l.Name]
-		if !ok {
+		if !ok && !hole {
 			continue // zero
 		}
-		c := f.ConstVal(v)
+		var c constant.Value
+		if ok {
+			c = f.ConstVal(v)
+		}
 		if c == nil || c.Kind() != constant.Int {
 			for i := 0; i < l.Size; i++ {
 				buf[l.Offset+i] = -1
